@@ -489,7 +489,8 @@ def lod_join(inp, W):
     b_before = [dict(x) for x in b]
     by = [x if isinstance(x, str) else tuple(x) for x in inp["by"]]
     out = getattr(a, inp["kind"])(b, *by)
-    return {"out": out, "b_after": [dict(x) for x in b], "b_before": b_before}
+    return {"out": out, "b_after": [dict(x) for x in b], "b_before": b_before,
+            "b_obsolete": bool(list.__getattribute__(b, "_obsolete"))}
 
 @op
 def lod_aggregate(inp, W):
